@@ -558,7 +558,7 @@ fn check_mutant(rep: &mut Report, cx: &LayoutCtx, fseq: u64, mu: &Mutn) {
     let thresholds: Vec<Option<u64>> = if cx.deltas {
         let mut all: Vec<u64> = truth.values().flatten().map(|e| e.0).collect();
         all.sort();
-        vec![None, Some(0), Some(all.get(all.len() / 2).cloned().unwrap_or(1))]
+        vec![None, Some(0), Some(all.get(all.len() / 2).cloned().unwrap_or(1)), Some(all.last().cloned().unwrap_or(1))]
     } else {
         vec![None]
     };
@@ -602,6 +602,17 @@ fn check_mutant(rep: &mut Report, cx: &LayoutCtx, fseq: u64, mu: &Mutn) {
                 match judge(&pre, &mid, &post, kmin_t, &got, th.is_none(), mu.kind().starts_with("zero")) {
                     Err((d, detail)) => rep.violation(sig(d), detail, wit(json!({"after": th}))),
                     Ok(k) if th.is_none() => rep.count(if k == n_f { "outcome:all-entries-recovered" } else if k == 0 { "outcome:none-of-file" } else { "outcome:proper-prefix" }),
+                    // with a threshold the filter hides a stepped-over entry from the prefix test above: damage that the entry
+                    // checksum covers (payload, checksum field) ends recovery of the file at that entry, whatever its stamp, so
+                    // no more than the kept entries in front of it may come back
+                    Ok(k) if matches!(region.as_str(), "entry.payload" | "entry.crc") && idx.map_or(false, |i| k > truth[&fseq][..i].iter().filter(keep).count()) => {
+                        let i = idx.unwrap_or(0);
+                        rep.violation(
+                            sig("entry-skipped-recovery-continued"),
+                            format!("entry #{} of the file is damaged ({}), {} of the file's entries at or above the threshold lie in front of it, {} were returned", i, region, truth[&fseq][..i].iter().filter(keep).count(), k),
+                            wit(json!({"after": th})),
+                        )
+                    }
                     Ok(_) => rep.count("recover_entries_after:ok"),
                 }
             }
